@@ -709,9 +709,9 @@ async fn scenario(w: World, p: P) -> Out {
                 // one defect is not reported again as a consequence
                 if let Some(c) = culprit {
                     if !(ci == 0 && c == StatusKind::OfferedDeadlineMissed) && !(ci == 1 && c == StatusKind::RequestedDeadlineMissed) {
-                        let v = if exp == Tri::T { Tri::F } else { Tri::T };
+                        // (unknown until the next operation that definitely sets or resets it)
                         let t2 = sim.now();
-                        out.model.update(t2, "event", |s| s.c[ci].set(c, v));
+                        out.model.update(t2, "event", |s| s.c[ci].set(c, Tri::U));
                     }
                 }
             }
